@@ -164,33 +164,41 @@ pub(crate) fn generate_eager_reader_artifacts<TCompilationProfile: CompilationPr
         },
     }];
 
-    let variable_definitions = match client_selectable {
-        SelectionType::Scalar(s) => s.arguments.reference(),
-        SelectionType::Object(o) => o.arguments.reference(),
-    };
-    if !variable_definitions.is_empty() {
-        let reader_parameters_type = format!(
-            "{}__{}__parameters",
-            parent_object_entity.name, client_selectable_name
-        );
-        let parameters = variable_definitions.iter();
-        let parameters_types = generate_parameters(db, parameters);
-        let parameters_content =
-            format!("export type {reader_parameters_type} = {parameters_types}\n");
-        path_and_contents.push(ArtifactPathAndContent {
-            file_content: parameters_content.into(),
-            artifact_path: ArtifactPath {
-                file_name: *RESOLVER_PARAMETERS_TYPE_FILE_NAME,
-                type_and_field: EntityNameAndSelectableName {
-                    parent_entity_name: parent_object_entity.name.item,
-                    selectable_name: client_selectable_name,
-                }
-                .wrap_some(),
-            },
-        });
-    }
+    path_and_contents.extend(generate_parameters_type_artifact(db, client_selectable));
 
     path_and_contents
+}
+
+/// The `parameters_type.ts` artifact that `param_type.ts` imports whenever the
+/// client field or pointer declares variables.
+pub(crate) fn generate_parameters_type_artifact<TCompilationProfile: CompilationProfile>(
+    db: &IsographDatabase<TCompilationProfile>,
+    client_selectable: &ClientSelectable<TCompilationProfile>,
+) -> Option<ArtifactPathAndContent> {
+    let (parent_entity_name, client_selectable_name, variable_definitions) = match client_selectable
+    {
+        SelectionType::Scalar(s) => (s.parent_entity_name, s.name, s.arguments.reference()),
+        SelectionType::Object(o) => (o.parent_entity_name, o.name, o.arguments.reference()),
+    };
+    if variable_definitions.is_empty() {
+        return None;
+    }
+    let reader_parameters_type = format!("{parent_entity_name}__{client_selectable_name}__parameters");
+    let parameters = variable_definitions.iter();
+    let parameters_types = generate_parameters(db, parameters);
+    let parameters_content = format!("export type {reader_parameters_type} = {parameters_types}\n");
+    ArtifactPathAndContent {
+        file_content: parameters_content.into(),
+        artifact_path: ArtifactPath {
+            file_name: *RESOLVER_PARAMETERS_TYPE_FILE_NAME,
+            type_and_field: EntityNameAndSelectableName {
+                parent_entity_name,
+                selectable_name: client_selectable_name,
+            }
+            .wrap_some(),
+        },
+    }
+    .wrap_some()
 }
 
 pub(crate) fn generate_eager_reader_condition_artifact<TCompilationProfile: CompilationProfile>(
